@@ -147,6 +147,82 @@ def scenario_jobs(ctx):
     return jobs
 
 
+def suspend_jobs(ctx):
+    """application callbacks that SUSPEND (async session_requested / connection_requested / server_requested /
+    begin_auth / validate_password / validate_public_key on the server, an async server_host_keys_handler on the
+    client): the trigger message leaves the callback pending, the hostile message is handled (and usually kills the
+    connection) in that window, then the callback completes"""
+    M = H._imports()[1]
+    rng = ctx.rng
+    full = ctx.tier == 'thorough'
+    S = H.sstr
+    blob = H.mini_host_key_blob()
+    kinds = [
+        ('server', 'authed', 'session_requested', [M.channel_open_session(7, 1 << 21, 32768)]),
+        ('server', 'authed', 'connection_requested',
+         [bytes([90]) + S(b'direct-tcpip') + H.u32(8) + H.u32(1 << 21) + H.u32(32768) + S(b'127.0.0.1') + H.u32(9) +
+          S(b'10.0.0.9') + H.u32(1234)]),
+        ('server', 'authed', 'server_requested', [bytes([80]) + S(b'tcpip-forward') + b'\1' + S(b'127.0.0.1') + H.u32(0)]),
+        ('server', 'postkex', 'begin_auth', [M.client_service_request('ssh-userauth'), M.client_auth_none('u')]),
+        ('server', 'postkex', 'validate_password',
+         [M.client_service_request('ssh-userauth'), M.client_auth_password('u', 'pw')]),
+        ('server', 'postkex', 'validate_public_key',
+         [M.client_service_request('ssh-userauth'),
+          bytes([50]) + S(b'u') + S(b'ssh-connection') + S(b'publickey') + b'\0' + S(b'ssh-ed25519') + S(blob)]),
+        ('client', 'authed', 'server_host_keys_handler', [bytes([80]) + S(b'hostkeys-00@openssh.com') + b'\0' + S(blob)]),
+    ]
+    allp = H.build_payloads(rng, 'quick')
+    wf = [x for x in allp if x[0].endswith(':wf')]
+    rest = [x for x in allp if not x[0].endswith(':wf')]
+    jobs = []
+    for role, phase, cb, trigger in kinds:
+        hostile = (wf + rng.sample(rest, 400)) if full else (rng.sample(wf, 36) + rng.sample(rest, 14))
+        # always: the peer just goes away / violates the protocol for a channel that does not exist
+        hostile = [('window_adjust:unknown_channel', M.window_adjust(99, 1)), ('disconnect:wf', M.disconnect(11, 'bye'))] + hostile
+        for label, p in hostile:
+            jobs.append({'kind': 'session', 'role': role, 'phase': phase, 'seed': 2, 'chunk': None, 'alarm': 10,
+                         'suspend': cb, 'per_conn': len(trigger) + 1,
+                         'labels': ['trigger %s' % cb] * len(trigger) + ['[%s pending] %s' % (cb, label)],
+                         'payloads': [t.hex() for t in trigger] + [p.hex()]})
+    return jobs
+
+
+def x11_session_jobs(ctx):
+    """an asyncssh client with X11 forwarding on (display = a stand-in X server of the harness, cookie from an
+    Xauthority file); the hostile server opens an "x11" channel and sends X11 setup blocks"""
+    from .. import c10_parsers as P
+    M = H._imports()[1]
+    rng = ctx.rng
+    S = H.sstr
+    mark = H.X11_COOKIE_MARK
+    blocks = []
+    for endian in (b'B', b'l', b'?'):
+        blocks.append(('right cookie %r' % endian, P.x11_block(endian, data=mark) + b'\x01\x02'))
+        blocks.append(('wrong cookie %r' % endian, P.x11_block(endian, data=b'\x55' * 16)))
+        for v in (0, 1, 2, 255, 65535):
+            blocks.append(('name_len=%d %r' % (v, endian), P.x11_block(endian, data=mark, name_len=v)))
+            blocks.append(('data_len=%d %r' % (v, endian), P.x11_block(endian, data=mark, data_len=v)))
+            blocks.append(('no name, data_len=%d %r' % (v, endian), P.x11_block(endian, name=b'', data=b'', data_len=v) + b'\0' * 4))
+        blocks.append(('truncated %r' % endian, P.x11_block(endian, data=mark)[:rng.randint(1, 30)]))
+        blocks.append(('extended %r' % endian, P.x11_block(endian, data=mark) + b'X' * 40))
+    if ctx.tier != 'thorough':
+        keep = [b for b in blocks if 'data_len=0' in b[0] or 'cookie' in b[0]]
+        blocks = keep + rng.sample([b for b in blocks if b not in keep], 14)
+    jobs = []
+    for label, block in blocks:
+        opn = bytes([90]) + S(b'x11') + H.u32(9) + H.u32(1 << 21) + H.u32(32768) + S(b'10.0.0.9') + H.u32(6000)
+        cut = rng.choice([len(block), len(block), 12, 1])
+        seq = [opn] + [bytes([94]) + H.u32(1) + S(block[i:i + cut]) for i in range(0, min(len(block), 40 * cut), cut)]
+        if cut * 40 < len(block):
+            seq.append(bytes([94]) + H.u32(1) + S(block[40 * cut:]))
+        seq += [bytes([94]) + H.u32(1) + S(b'later'), bytes([96]) + H.u32(1), bytes([97]) + H.u32(1)]
+        jobs.append({'kind': 'session', 'role': 'client', 'phase': 'x11', 'seed': 3, 'chunk': None, 'alarm': 15,
+                     'real_io': True, 'per_conn': len(seq),
+                     'labels': ['open x11'] + ['x11 setup: ' + label] * (len(seq) - 4) + ['later data', 'eof', 'close'],
+                     'payloads': [p.hex() for p in seq]})
+    return jobs
+
+
 def raw_jobs(ctx):
     """whole-connection byte strings"""
     rng = ctx.rng
@@ -301,7 +377,7 @@ def run(ctx):
 
     # ---- stage jobs ---------------------------------------------------------------------------
     stage_jobs = [{'kind': 'parsers', 'stage': s, 'seed': ctx.seed, 'n': k, 'tier': ctx.tier, 'alarm': 90}
-                  for s, k in (('getters', n * 2), ('agent', n * 2), ('socks', n * 3), ('sftp_framing', n),
+                  for s, k in (('getters', n * 2), ('agent', n * 2), ('socks', n * 3), ('x11', n * 2), ('sftp_framing', n),
                                ('copy', 0), ('fuzz_imports', n * 3), ('fuzz_sftp_server', 0), ('fuzz_sftp_client', 0))]
     bj = banner_jobs(ctx, lim)
     banner = [{'kind': 'session', 'role': 'server' if role == 'server' else 'client', 'phase': 'banner',
@@ -310,7 +386,7 @@ def run(ctx):
            'labels': ['packet_length=2^32-1'],
            'raw': [(b'SSH-2.0-Hostile_1.0\r\n' + H.u32(2 ** 32 - 1) + b'\x04\x02ig').hex()] + [(b'\xaa' * 16384).hex()] * 96}
     big_c = dict(big, role='client')
-    sess = scenario_jobs(ctx) + session_jobs(ctx) + raw_jobs(ctx)
+    sess = scenario_jobs(ctx) + suspend_jobs(ctx) + x11_session_jobs(ctx) + session_jobs(ctx) + raw_jobs(ctx)
     jobs = stage_jobs + banner + [big, big_c] + sess
     t0 = time.time()
     recs, hung, crashed = run_children(ctx, jobs, workers, 1500 if ctx.tier == 'thorough' else 420, 'c10')
@@ -345,6 +421,7 @@ def run(ctx):
     corr = [('getters', 'chk_getters', 'bytes * list (Z * Z) * list oval * Z'),
             ('agent', 'chk_agent', 'Z * bytes * aout'),
             ('socks', 'chk_socks', 'list bytes * (bool * list bytes * bool * option (bytes * option bytes * Z) * option bytes)'),
+            ('x11', 'chk_x11', '(bytes * bytes * list bytes) * (bytes * bytes * bool)'),
             ('sftp_framing', 'chk_sftp', 'bytes * (list Z * bool)'),
             ('copy', 'chk_copy', '(bool * Z * Z * Z * Z * Z) * (Z * Z * bool)')]
     for st, chk, ty in corr:
@@ -374,7 +451,7 @@ def run(ctx):
         if cases:
             ctx.sample({st: cases[len(cases) // 2][:300]})
     # vacuity of the stages
-    need = {'getters': ('err_partial', 20), 'agent': ('keys', 3), 'socks': ('forwarded', 10), 'sftp_framing': ('ended', 5),
+    need = {'x11': ('zero_length_cookie', 10), 'getters': ('err_partial', 20), 'agent': ('keys', 3), 'socks': ('forwarded', 10), 'sftp_framing': ('ended', 5),
             'copy': ('multi_block', 3)}
     for st, (key, k) in need.items():
         if st in stage_res and stage_res[st]['stats'].get(key, 0) < k:
@@ -508,6 +585,8 @@ def run(ctx):
     ctx.cov['oracle'].update({'session_outcomes': outcomes, 'owner_connection_lost_classes': owner_classes,
                               'max_output_bytes_per_input_byte': round(max_ratio['out'], 2),
                               'max_loop_turns_per_payload': max_ratio['turns'], 'payloads_per_phase': phases_seen})
+    if phases_seen.get('client.x11', 0) < 20 and not hung and hang_count == 0:
+        ctx.broke('vacuity:sessions.client.x11', 'only %d X11 payloads reached the client' % phases_seen.get('client.x11', 0))
     for role in ('server', 'client'):
         for ph in H.PHASES + ['rawstream']:
             if phases_seen.get('%s.%s' % (role, ph), 0) < (20 if ph != 'rawstream' else 5) and not hung and hang_count == 0:
